@@ -16,7 +16,7 @@ class C01(RecorderProp):
             '(run the original, substitute value, default output result, fallback aliases) on their sites - none may ever be taken; non-trivial = the recording was saved complete and '
             'holds at least one interception; distinct = distinct canonical case')
     OPTS = dict(ALL_OPTS, faults=False, control=False, data=False, sampling=False, missing_play=False, body_effects=False,
-                interrupts=True, play_ratio=0.0, runs=(1, 2), cassettes=['memory', 'memory', 'file', 's3'], fallbacks=True)
+                interrupts=True, play_ratio=0.0, runs=(1, 2), cassettes=['memory', 'memory', 'file', 's3', 'async'], fallbacks=True)
     N = {'quick': 2500, 'thorough': 30000}
 
     def gen_one(self, rng, tier):
